@@ -259,6 +259,9 @@ def run(argv):
             d = gen_desc(rng, k)
         if k == 6:
             d["allowed"], d["required"] = [], ["D", "Si"]        # extra species that take part in no reaction, always
+        if k == 7:
+            d = user_binding_desc(rng, k)
+            d["binding"], d["yield"] = {}, {"#CO": 2.7e-3, "#H2O": 1.3e-3}      # yields of the user's own, binding energies from the table
         descs.append(d)
     ex_cases = [4, 5, 7, 8, 11] if tier == "quick" else [0, 1, 3, 4, 5, 6, 7, 8, 9, 10, 11, 16, 17, 18]
     process(chk, descs, ex_cases)
